@@ -473,6 +473,13 @@ func seqPart(tier string) runner.Part {
 						return
 					}
 					res.Outcomes[fmt.Sprintf("devs=%d:%s", len(sc.Devs), out)]++
+					if len(sc.Devs) == 0 && sc.Cfg.Size > 0 && (strings.Contains(out, "err") || out == "resolve-error") {
+						key := "C06/seq/error-with-healthy-registry"
+						if !hasKey(res.Violations, key) {
+							res.Violations = append(res.Violations, runner.Violation{Key: key, Msg: fmt.Sprintf("config %+v history %v: operation failed although the registry answered every request perfectly: %s", sc.Cfg, sc.Hist, out), Replay: sc})
+						}
+						return
+					}
 					if len(sc.Devs) > 0 && strings.Contains(out, "ok") {
 						nontriv[fmt.Sprintf("%+v%v%v", sc.Cfg, sc.Hist, sc.Devs)] = struct{}{}
 					}
